@@ -270,3 +270,54 @@ impl SparseMapU32 {
         self.0.verif_sparse().into_iter().map(|i| i as u32).collect()
     }
 }
+
+/// `BitSet<u32>` behind a public face.
+#[derive(Clone, Default)]
+pub struct BitSetU32(crate::bit_set::BitSet<u32>);
+
+impl BitSetU32 {
+    pub fn new() -> Self {
+        Self(crate::bit_set::BitSet::new())
+    }
+
+    pub fn insert(&mut self, value: u32) -> bool {
+        self.0.insert(value)
+    }
+
+    pub fn remove(&mut self, value: u32) -> bool {
+        self.0.remove(value)
+    }
+
+    pub fn contains(&self, value: u32) -> bool {
+        self.0.contains(value)
+    }
+
+    /// `self |= other`
+    pub fn union_with(&mut self, other: &Self) {
+        self.0 |= &other.0;
+    }
+
+    pub fn is_disjoint(&self, other: &Self) -> bool {
+        self.0.is_disjoint(&other.0)
+    }
+
+    pub fn is_empty(&self) -> bool {
+        self.0.is_empty()
+    }
+
+    pub fn len(&self) -> usize {
+        self.0.len()
+    }
+
+    pub fn shrink_to_fit(&mut self) {
+        self.0.shrink_to_fit()
+    }
+
+    pub fn elements(&self) -> Vec<u32> {
+        self.0.iter().collect()
+    }
+
+    pub fn blocks(&self) -> Vec<u64> {
+        self.0.verif_blocks()
+    }
+}
